@@ -1,5 +1,6 @@
 """C02 - signature instructions verify exactly the flag-selected message."""
 import random, sys
+from ..par import SafePool
 from ..common import Report, REPO
 from .. import scncheck
 from ..gen.progs import push, op, b1
@@ -206,7 +207,7 @@ def main(tier: str, seed: int) -> int:
         scncheck.mc(rep, 'SigMsg', fam, INV, run_mc)
     import multiprocessing as mp
     n = 3000 if quick else 60000
-    with mp.get_context('fork').Pool(14) as pool:
+    with SafePool(14) as pool:
         cases = [c for ch in pool.map(record_random, [(seed * 31 + i, n // 28) for i in range(28)]) for c in ch]
     scncheck.judge(rep, 'SigMsg', [], cases, 'random signature scenarios')
     return rep.finish()
